@@ -399,4 +399,31 @@ theorem Flags.plainAt.toText {f : Flags} {tb te : Int} (h : f.plainAt tb te) : f
   obtain ⟨p1, p2, _, p4, p5, p6, p7, _, _⟩ := h.dyn
   exact ⟨⟨p1, p2, p4, p5, p6, p7⟩, h.ph, h.dynTb, h.dynTe, h.phTb, h.phTe, h.stTb, h.envTb⟩
 
+/-! ### histories of renderer operations -/
+
+theorem stateAfter_append : ∀ (o1 o2 : List ROp) (b : Buffers), stateAfter b (o1 ++ o2) = stateAfter (stateAfter b o1) o2
+  | [], _, _ => rfl
+  | .draw fr :: r, o2, b => by simpa [stateAfter] using stateAfter_append r o2 _
+  | .clear k :: r, o2, b => by simpa [stateAfter] using stateAfter_append r o2 _
+  | .render k :: r, o2, b => by simpa [stateAfter] using stateAfter_append r o2 _
+  | .renderDynamic :: r, o2, b => by simpa [stateAfter] using stateAfter_append r o2 _
+
+theorem runOps_append : ∀ (o1 o2 : List ROp) (b : Buffers),
+    runOps b (o1 ++ o2) = runOps b o1 ++ runOps (stateAfter b o1) o2
+  | [], _, _ => rfl
+  | .draw fr :: r, o2, b => by simpa [runOps, stateAfter] using runOps_append r o2 _
+  | .clear k :: r, o2, b => by simpa [runOps, stateAfter] using runOps_append r o2 _
+  | .render k :: r, o2, b => by simpa [runOps, stateAfter] using runOps_append r o2 _
+  | .renderDynamic :: r, o2, b => by simpa [runOps, stateAfter] using runOps_append r o2 _
+
+theorem stateAfter_draws : ∀ (ds : List Frame) (b : Buffers),
+    (stateAfter b (ds.map ROp.draw)).patches = b.patches ++ ds.flatMap (fun fr => drawScenario fr.flags fr.obstacles)
+  | [], b => by simp [stateAfter]
+  | fr :: ds, b => by
+    simp only [List.map_cons, stateAfter, stateAfter_draws ds, Frame.draw, List.flatMap_cons, List.append_assoc]
+
+theorem runOps_draws : ∀ (ds : List Frame) (b : Buffers), runOps b (ds.map ROp.draw) = []
+  | [], _ => rfl
+  | fr :: ds, b => by simpa [runOps] using runOps_draws ds _
+
 end CR.Draw
